@@ -765,7 +765,7 @@ def index_fault_matrix():
     return out
 
 
-def inject_fault(rng, gen, forms):
+def inject_fault(rng, gen, forms, helper_ok=False):
     """insert one faulty form (kind x calling context) at a random position; returns
     (forms, index_of_faulty_form, expected_kind, context)"""
     kind = rng.choice(list(FAULTS))
@@ -781,8 +781,18 @@ def inject_fault(rng, gen, forms):
     else:
         fault = rng.choice(FAULTS[kind])
     ctx = rng.choice(["direct", "tail", "apply", "library", "operand", "nested-tail", "body-non-last", "set-value", "operand-before-effect",
-                      "whole-expansion"])
-    if ctx == "direct":
+                      "whole-expansion"] + (["earlier-helper"] * 2 if helper_ok else []))
+    helper = None
+    if ctx == "earlier-helper":
+        # the fault happens inside a procedure an EARLIER form defined (in non-tail position there, or as its last expression); the
+        # failing form is the one that calls it
+        hn = "hlp-zz%d" % rng.randrange(1000)
+        helper = rng.choice(["(define (%s t) (+ t %s))", "(define (%s t) (list t %s t))", "(define (%s t)\n  (car (list %s)))".replace("\\n", " "),
+                             "(define %s (lambda (t) (if t (+ 1 %s) 0)))"]) % (hn, fault)
+        form = rng.choice(["(%s 1)", "(list 0 (%s 1))", "(apply %s '(1))"]) % hn
+    if ctx == "earlier-helper":
+        pass
+    elif ctx == "direct":
         form = fault
     elif ctx == "tail":
         form = "((lambda () 1 %s))" % fault
@@ -815,5 +825,8 @@ def inject_fault(rng, gen, forms):
     pos = rng.randrange(0, len(forms) + 1)
     if kind == "arity" and procs:
         pos = len(forms)      # the procedure it calls must already be defined
+    if helper is not None:
+        forms = forms[:pos] + [helper, form] + forms[pos:]
+        return forms, pos + 1, FAULT_KIND[kind], ctx
     forms = forms[:pos] + [form] + forms[pos:]
     return forms, pos, FAULT_KIND[kind], ctx
